@@ -438,7 +438,13 @@ func ext۰reflect۰Value۰Field(fr *frame, args []value) value {
 	// Signature: func (v reflect.Value, i int) reflect.Value
 	v := args[0]
 	i := args[1].(int)
-	return makeReflectValue(rV2T(v).t.Underlying().(*types.Struct).Field(i).Type(), rV2V(v).(structure)[i])
+	ft := rV2T(v).t.Underlying().(*types.Struct).Field(i).Type()
+	if a := rVAddr(v); a != nil {
+		// a field of an addressable struct is addressable: its cell is the i-th element of the struct value
+		st := (*a).(structure)
+		return makeReflectValueAddr(ft, &st[i])
+	}
+	return makeReflectValue(ft, rV2V(v).(structure)[i])
 }
 
 func ext۰reflect۰Value۰Float(fr *frame, args []value) value {
